@@ -85,6 +85,44 @@ def case_bid(alert):
     return hx.explore_case(path, dict(max_paths=20000))
 
 
+def case_sequence(what):
+    """two call messages and two card messages parsed one after the other in the same process (one seat): the second result
+    must not depend on the first (a memo in a parser is part of the real code and is interpreted as such)"""
+    from bridge_env import Bid, Card, Player
+    from bridge_env.network_bridge.client import Client
+    from bridge_env.network_bridge.socket_interface import MessageInterface
+
+    def path(eng):
+        eng.summarize.add(Card.rank_int_to_str.__func__)
+        eng.summarize.add(Card.rank_str_to_int.__func__)
+        b1, b2 = z3.Ints('call1 call2')
+        eng.assume(z3.And(1 <= b1, b1 <= 38, 1 <= b2, b2 <= 38))
+        r1, s1, r2, s2 = z3.Ints('rank1 suit1 rank2 suit2')
+        eng.assume(z3.And(2 <= r1, r1 <= 14, 1 <= s1, s1 <= 4, 2 <= r2, r2 <= 14, 1 <= s2, s2 <= 4))
+        cex = lambda m: {'kind': 'sequence', 'calls': [hx.mval(m, b1), hx.mval(m, b2)],
+                         'cards': [[hx.mval(m, r1), hx.mval(m, s1)], [hx.mval(m, r2), hx.mval(m, s2)]]}
+        name = 'North'
+        back = None
+        chk = []
+        for b in ((b1, b2) if what == 'calls' else ()):
+            k, msg = _call(eng, Client.create_bid_message, SEnum(Bid, b), name)
+            k2, back = _call(eng, MessageInterface.parse_bid, msg, name) if k == 'ret' else ('raise', None)
+            if 'raise' in (k, k2):
+                return dict(outcome='raise', cex=cex, checks=[('call messages are built and parsed without exception', False)])
+        if what == 'calls':
+            return dict(outcome='second message', cex=cex,
+                        checks=[('the second call message parses to the second call, whatever was parsed before', zenum(back) == b2)])
+        for (r, s) in ((r1, s1), (r2, s2)):
+            k, txt = _call(eng, Client.card_str, cardmod.sym_card(r, s))
+            k2, cb = _call(eng, MessageInterface.parse_card, sstr.concat(eng, [name, ' plays ', txt]), Player.N) if k == 'ret' else ('raise', None)
+            if 'raise' in (k, k2):
+                return dict(outcome='raise', cex=cex, checks=chk + [('card messages are built and parsed without exception', False)])
+        chk.append(('the second card message parses to the second card', z3.And(
+            zint(cb.attrs['rank'] if isinstance(cb, SObj) else cb.rank) == r2, zenum(cb.attrs['suit'] if isinstance(cb, SObj) else cb.suit) == s2)))
+        return dict(outcome='second message', cex=cex, checks=chk)
+    return hx.explore_case(path, dict(max_paths=50000))
+
+
 def case_card(notation):
     from bridge_env import Card, Player
     from bridge_env.network_bridge.client import Client
@@ -384,6 +422,8 @@ def cases(tier):
     cs = []
     from harness import C20
     cs.append((case_header, 'board header', {}))
+    cs.append((case_sequence, 'two call messages parsed in sequence', dict(what='calls')))
+    cs.append((case_sequence, 'two card messages parsed in sequence', dict(what='cards')))
     small, big = small_and_sampled_shapes(tier)
     n = 8 if tier != 'thorough' else 48
     for i in range(n):
@@ -420,7 +460,7 @@ META = dict(
                  'non-ASCII bytes in framing are outside the claim (UTF-8 continuation bytes are never 0x0D)'],
     rule='feasible paths of builder -> parser over symbolic values and symbolic characters',
     explanation='each end\'s builder is executed symbolically and its text (symbolic characters) is fed to the other end\'s real parser',
-    required_outcomes=['call message', 'card message', 'all received', 'stopped at end of stream', 'header', 'hand message', 'connection request', 'accepted'],
+    required_outcomes=['second message', 'call message', 'card message', 'all received', 'stopped at end of stream', 'header', 'hand message', 'connection request', 'accepted'],
 )
 
 
